@@ -37,6 +37,9 @@ CLAIMED = {
  'C12': (TV, 'multi-stage NLP rows vs union of per-stage reference rows + reference coupling rows (z3); clone-based vs directly declared OCP compared relationally',
          'For every enumerated stage list (mixed methods/grids/horizons, per-stage parameters/variables, time inside dynamics and integrands), coupling pattern and parent variable/objective: complete row multiset of the multi-stage NLP in bijection with the union of each stage\'s reference rows (from that stage\'s own named quantities) and the reference coupling rows; objective = sum; named variables of different stages disjoint; OCP built from template clones (with overridden t0/T) equals the directly declared OCP (two real transcriptions, all x) incl. starting point; template content unchanged.',
          'As C01/C04. Stage nesting depth 1.', '3/C12'),
+ 'C07': ('other', 'identities between real sample()/value() expressions decided by z3 over all decision vectors; DM2numpy layout as a ground comparison',
+         'Bounded symbolic checking of the read-back map. For every enumerated model/method/grid and test expression (scalar, column, row, matrix over x,u,z,t,T,t0,DT,DT_control,p,v of all grid kinds, quadrature state) and G in {control, control-, integrator, integrator+refine, integrator_roots}: sample(e,G)[i] == e applied to the sampled leaves at point i (homomorphism, all values, markers uninterpreted); sampled primitives equal the reference quantity of the enclosing interval/node incl. the scheme quadrature for quadrature states; value(e) == e(values); numeric array layout [time, row, col] (ground).',
+         'As C01; layout checked on a tagged decision vector instead of solver output.', '3/C07'),
 }
 NA = {p: 'check not built yet in this round (see DESIGN.md section 3 for the plan)' for p in
       ['C02','C03','C04','C05','C06','C07','C08','C09','C10','C11','C12','C13','C14','C15','C16','C17','C18','C19']}
